@@ -42,9 +42,23 @@ func (ft *fnTrans) call(x ssa.Value, c *ssa.CallCommon, h *Heap, reach string) {
 		args = append(args, TV{ft.val(c.Value), c.Value.Type()})
 		ft.safe("nil", reach, not(eq(ft.val(c.Value), "(mk-iface 0 0)")), "method call on nil interface value ("+c.Method.Name()+")", c.Pos())
 	}
+	var interior []interiorArg
 	for _, a := range c.Args {
+		if l, isLoc := ft.locs[a]; isLoc {
+			// interior pointer passed to a callee: copy-in / copy-out through a fresh cell
+			ip := ft.materialize(l, a.Type(), h)
+			interior = append(interior, interiorArg{loc: l, ref: ip, ty: a.Type()})
+			args = append(args, TV{ip, a.Type()})
+			vc.assumed["interior pointer arguments are passed by copy-in/copy-out (callee assumed not to reach the same location through another path)"] = true
+			continue
+		}
 		args = append(args, TV{ft.val(a), a.Type()})
 	}
+	defer func() {
+		for _, ia := range interior {
+			ft.copyOut(ia, h)
+		}
+	}()
 	if strings.HasPrefix(key, "sync/atomic.Add") {
 		// modelled sequentially (no concurrency in the verified subset)
 		loc := ft.locOf(c.Args[0])
@@ -112,7 +126,16 @@ func (ft *fnTrans) call(x ssa.Value, c *ssa.CallCommon, h *Heap, reach string) {
 	// unknown callee: everything may change
 	vc.assumed["havoc (no contract): "+key] = true
 	pre := h.clone()
+	savedEv := map[string]string{}
+	for c := range vc.comps {
+		if strings.HasPrefix(c, "$ev:") {
+			savedEv[c] = vc.get(*h, c)
+		}
+	}
 	vc.havocAll(h)
+	for c, t := range savedEv {
+		h.m[c] = t
+	}
 	ft.preserveLocals(pre, h)
 	for i, rs := range resSorts {
 		n := vc.fresh(nameOr(x, "call"), rs)
@@ -265,6 +288,33 @@ func (ft *fnTrans) applyContract(x ssa.Value, fc *FuncContract, callee *ssa.Func
 			ft.frameCheck(it.comp, it.ref, false)
 		}
 	}
+	for _, name := range fc.MayEmit {
+		ft.requireEmitAllowed(name, reach)
+		for i, c := range vc.evComps(name) {
+			oldT := vc.get(*h, c)
+			newT := vc.havoc(h, c)
+			if i == 0 {
+				vc.assume("(>= " + newT + " " + oldT + ")")
+			}
+		}
+	}
+	if fc.Havocs {
+		// everything but the ghost events may change
+		saved := map[string]string{}
+		for c := range vc.comps {
+			if strings.HasPrefix(c, "$ev:") {
+				saved[c] = vc.get(*h, c)
+			}
+		}
+		preH := h.clone()
+		ft.frameCheckHavocs(reach)
+		vc.havocAll(h)
+		ft.preserveLocals(preH, h)
+		for c, t := range saved {
+			h.m[c] = t
+		}
+		vc.assumed["trusted: "+key+" causes only the events it declares"] = true
+	}
 	topPre := vc.get(*h, compTop)
 	nt := vc.havoc(h, compTop)
 	vc.assume("(>= " + nt + " " + topPre + ")")
@@ -301,6 +351,25 @@ func (ft *fnTrans) applyContract(x ssa.Value, fc *FuncContract, callee *ssa.Func
 			post.vars[n] = post.results[i]
 		}
 	}
+	// ghost events
+	for _, em := range fc.Emits {
+		ft.requireEmitAllowed(em.Event, reach)
+		cnt := vc.evCounter(em.Event)
+		tys := vc.evArgTypes(em.Event)
+		if len(tys) != len(em.Args) {
+			panic(specErr{fmt.Sprintf("emits %s: want %d arguments", em.Event, len(tys))})
+		}
+		for i, a := range em.Args {
+			v, err := post.Expr(a)
+			if err != nil {
+				panic(specErr{fmt.Sprintf("emits %q of %s: %v", em.Src, key, err)})
+			}
+			c, _ := vc.evArg(em.Event, i)
+			vc.set(h, c, v.T)
+		}
+		vc.set(h, cnt, "(+ "+vc.get(*h, cnt)+" 1)")
+	}
+	post.heap = *h
 	for _, e := range fc.Ensures {
 		t, err := post.Bool(e.Expr)
 		if err != nil {
@@ -320,6 +389,9 @@ func copyVars(m map[string]TV) map[string]TV {
 }
 
 func (ft *fnTrans) frameCheckAny(comp string) {
+	if ft.fc.Havocs {
+		return
+	}
 	for _, m := range ft.modItems {
 		if m.comp == comp && m.ref == "" {
 			return
@@ -580,6 +652,9 @@ func (ft *fnTrans) appendCall(x ssa.Value, c *ssa.CallCommon, h *Heap, reach str
 }
 
 func (ft *fnTrans) frameGoal(comp, ref string) string {
+	if ft.fc.Havocs {
+		return "true"
+	}
 	alts := []string{"(>= " + ref + " " + ft.top0 + ")"}
 	for _, m := range ft.modItems {
 		if m.comp == comp {
@@ -680,4 +755,80 @@ func (ft *fnTrans) preserveLocals(pre Heap, h *Heap) {
 			vc.assume(eq(sel(vc.get(*h, c), r), sel(vc.get(pre, c), r)))
 		}
 	}
+}
+
+
+// requireEmitAllowed: a function that (transitively) causes an event must say so in its own contract.
+func (ft *fnTrans) requireEmitAllowed(event, reach string) {
+	for _, e := range ft.fc.Emits {
+		if e.Event == event {
+			return
+		}
+	}
+	for _, e := range ft.fc.MayEmit {
+		if e == event {
+			return
+		}
+	}
+	ft.vc.oblige("frame", ft.siteName("frame.event"), reach, "false", "callee causes event "+event+" but the contract has no `mayemit "+event+"`", 0)
+}
+
+
+// a caller of a heap-havocking callee must itself be declared havocs (its own callers then lose all heap knowledge)
+func (ft *fnTrans) frameCheckHavocs(reach string) {
+	if ft.fc.Havocs {
+		return
+	}
+	ft.vc.oblige("frame", ft.siteName("frame.havocs"), reach, "false", "callee is declared `havocs`; the caller's contract must be too", 0)
+}
+
+
+type interiorArg struct {
+	loc *Loc
+	ref string
+	ty  types.Type
+}
+
+// materialize: a fresh object/cell holding the current content of an interior location
+func (ft *fnTrans) materialize(l *Loc, ptrTy types.Type, h *Heap) string {
+	vc := ft.vc
+	elem := ptrTy.Underlying().(*types.Pointer).Elem()
+	r := ft.newRef(h, "alloc")
+	v := ft.load(l, *h)
+	if st, ok := elem.Underlying().(*types.Struct); ok {
+		for i := 0; i < st.NumFields(); i++ {
+			c := vc.compField(elem, i)
+			vc.set(h, c, sto(vc.get(*h, c), r, vc.sorts.structGet(elem, i, v)))
+		}
+		return r
+	}
+	c := vc.compCell(elem)
+	vc.set(h, c, sto(vc.get(*h, c), r, v))
+	return r
+}
+
+func (ft *fnTrans) copyOut(ia interiorArg, h *Heap) {
+	vc := ft.vc
+	elem := ia.ty.Underlying().(*types.Pointer).Elem()
+	var v string
+	if _, ok := elem.Underlying().(*types.Struct); ok {
+		v = loadObject(vc, *h, elem, ia.ref)
+	} else {
+		v = sel(vc.get(*h, vc.compCell(elem)), ia.ref)
+	}
+	cur := ft.load(ia.loc, *h)
+	if cur == v {
+		return
+	}
+	// only write back when the callee could have changed the cell (otherwise the value is provably the same
+	// and the store would demand a frame permission the caller does not need)
+	changed := vc.define("copyout.changed", "Bool", not(eq(cur, v)))
+	saveReach := ft.reach[ft.curBlock.Index]
+	ft.reach[ft.curBlock.Index] = and(saveReach, changed)
+	hh := h.clone()
+	ft.store(ia.loc, &hh, v)
+	ft.reach[ft.curBlock.Index] = saveReach
+	// merge: if unchanged keep h, else hh
+	merged := vc.merge([]heapEdge{{changed, hh}, {"true", *h}})
+	*h = merged
 }
